@@ -223,7 +223,9 @@ with depth_arms (a : arms) : nat :=
     first arm whose condition succeeds (else the `else` arm, else nothing);
     `for` binds each word in order; `while` re-tests before every iteration
     (at most [n] iterations, then OutOfFuel); `break` / `continue` outside a
-    loop do nothing. A condition succeeds iff the last pipeline it ran
+    loop do nothing. With [e] (set -e in effect) the first statement whose last
+    pipeline failed -- at any depth -- ends the block, the loops and branches
+    around it and so the whole script; its status is the last of the list. A condition succeeds iff the last pipeline it ran
     returned 0. The status list of a compound statement is that of the
     statements it ran (conditions excluded). *)
 Section Sem.
@@ -231,13 +233,18 @@ Variable W : Type.
 Variable run_line : W -> str -> W * list Z.
 Variable for_words : W -> str -> W * list str.
 Variable set_var : W -> str -> str -> W.
+Variable e : bool.   (* set -e in effect *)
 Variable n : nat.
+
+(** with set -e in effect, a statement whose last pipeline failed ends everything *)
+Definition stops (crs : list Z) : bool := e && last_is_nonzero crs.
 
 (** sequencing: a statement that asks to leave the innermost loop ends the block *)
 Definition then_ (o : outcome W) (k : W -> outcome W) : outcome W :=
   match o with
   | Done w1 crs c b =>
-      if c then Done w1 crs true false
+      if stops crs then Done w1 crs false false
+      else if c then Done w1 crs true false
       else if b then Done w1 crs false true
       else match k w1 with
            | Done w2 crs2 c2 b2 => Done w2 (crs ++ crs2) c2 b2
@@ -253,7 +260,7 @@ Fixpoint sem_each (body : W -> outcome W) (var : str) (vs : list str) (w : W) : 
   | v :: vs' =>
       match body (set_var w var v) with
       | Done w2 crs _ b =>
-          if b then Done w2 crs false false
+          if b || stops crs then Done w2 crs false false
           else match sem_each body var vs' w2 with
                | Done w3 crs3 c3 b3 => Done w3 (crs ++ crs3) c3 b3
                | x => x
@@ -271,7 +278,7 @@ Fixpoint sem_iter (cond : str) (body : W -> outcome W) (k : nat) (w : W) : outco
       if last_is_zero crs then
         match body w1 with
         | Done w2 crs2 _ b =>
-            if b then Done w2 crs2 false false
+            if b || stops crs2 then Done w2 crs2 false false
             else match sem_iter cond body k' w2 with
                  | Done w3 crs3 c3 b3 => Done w3 (crs2 ++ crs3) c3 b3
                  | x => x
